@@ -39,7 +39,7 @@ func genRule(t *rapid.T, record bool) SrvRule {
 		return r
 	}
 	kinds := []string{"status", "status", "redirect", "cseq", "drop", "chatter", "delay", "close-before", "close-after", "truncate", "garbage",
-		"hdr-del", "hdr-set", "hdr-set", "hdr-set", "hdr-dup", "clen", "frame", "request", "401", "401", "no-frames"}
+		"hdr-del", "hdr-set", "hdr-set", "hdr-set", "hdr-dup", "clen", "frame", "request", "401", "401", "no-frames", "spam"}
 	if r.Method == "DESCRIBE" {
 		kinds = append(kinds, "sdp", "sdp", "sdp", "sdp", "sdp", "sdp-ctl", "sdp-ctl", "sdp-ctl", "sdp-ctl", "sdp-ctl", "sdp-ctl", "sdp-ctl", "sdp-ctl",
 			"redirect", "redirect", "hdr-set-base", "hdr-set-base", "hdr-set-base")
@@ -70,6 +70,9 @@ func genRule(t *rapid.T, record bool) SrvRule {
 		r.S = rapid.SampledFrom([]string{"self", "self", "other-path", "bad-url", "empty", "missing", "two", "downgrade", "upgrade", "refused", "http", "creds"}).Draw(t, "redirect")
 	case "cseq":
 		r.S = rapid.SampledFrom([]string{"missing", "wrong", "two", "dup", "0", "-1", "99999999999999999999", "abc", ""}).Draw(t, "cseq")
+	case "spam":
+		r.S = rapid.SampledFrom([]string{"OPTIONS", "OPTIONS", "frame"}).Draw(t, "spam")
+		r.N = rapid.SampledFrom([]int{100, 500, 2000, 10000}).Draw(t, "spam_gap_us")
 	case "chatter":
 		r.S = rapid.SampledFrom([]string{"stale", "options", "frame"}).Draw(t, "chatter")
 		r.N = rapid.SampledFrom([]int{40, 150, 300}).Draw(t, "chatter_gap")
